@@ -31,7 +31,7 @@ NL = c11.NL
 
 def gen_spec(rng):
     spec = c11.gen_spec(rng)
-    spec['parents'] = [None]; spec['with_h'] = False; spec['with_p'] = False
+    spec['parents'] = [None]; spec['with_h'] = False; spec['with_p'] = False; spec['discr'] = None
     if spec['pk'] in ('relpk', 'relpk1'): spec['pk'] = 'composite'
     return spec
 
